@@ -165,6 +165,12 @@ def finish(rep, level, explanation, assumptions, trusted_base, checker_cmd, seed
     }
     if rep.notes:
         cov['cross_reference_notes'] = rep.notes
+    if rep.tier == 'thorough' and os.environ.get('VERIF_NO_SELFTEST') != '1':
+        import thorough
+        repo = rep.analysed.get('repo', '/repo')
+        cov['self_test'] = thorough.self_test(rep.prop, repo)
+        if rep.prop in ('C12', 'C06', 'C04'):
+            cov['lint_cross_reference'] = thorough.lint_cross_reference(repo)
     if extra_cov:
         cov.update(extra_cov)
     ev = {
